@@ -560,6 +560,42 @@ func (g *Graph) defOf(id *ast.Ident, at Site) (rhs ast.Expr, idx int, tuple bool
 			if same {
 				return defs[0].rhs, defs[0].idx, defs[0].tuple
 			}
+			// several definitions reach the use. When the use is reached only with the variable
+			// known to be non-nil, the definitions that store nil (or the zero value) are not
+			// the ones seen: `var p *T; if c { p = x }; if p != nil { use(p) }` sees x.
+			if !g.inDefFilter {
+				g.inDefFilter = true
+				var nonNil []res
+				distinct := map[ast.Node]bool{}
+				for _, d := range defs {
+					if distinct[d.n] {
+						continue
+					}
+					distinct[d.n] = true
+					if d.rhs == nil && !d.tuple {
+						if _, isSpec := d.n.(*ast.ValueSpec); isSpec {
+							continue // zero value
+						}
+						nonNil = append(nonNil, d)
+						continue
+					}
+					if d.rhs != nil && f.IsNilLit(d.rhs) {
+						continue
+					}
+					nonNil = append(nonNil, d)
+				}
+				var out *res
+				if len(nonNil) == 1 && len(distinct) > 1 && nonNil[0].rhs != nil {
+					isV := func(e ast.Expr) bool { return f.ObjOf(e) == obj }
+					if g.Dominated(at, g.GExprNil(false, isV)) {
+						out = &nonNil[0]
+					}
+				}
+				g.inDefFilter = false
+				if out != nil {
+					return out.rhs, out.idx, out.tuple
+				}
+			}
 			return nil, 0, false
 		}
 	}
